@@ -28,6 +28,11 @@ in live batched dynamics.  Five case kinds, one per clause of DESIGN section 6 "
               harness: integer state and hop log exact, floats to 1e-12).  'afterseq' has the same configuration
               arising naturally (step 0 relabels the active state of row h, step 1 has h in holdoff overlapping again
               while row c crosses) and also compares every trajectory alone through the whole sequence.
+ init     initial amplitudes through the regular path (real _ensure_active_states / _normalize_initial_state /
+              _init_coeffs) with int, all-equal-tensor and per-row MIXED initial states: at step 0 every row has
+              population exactly 1 on its own state and 0 elsewhere and the matching active index; after one real
+              propagation step norm / amplitudes vs R3, g range, and every row equal to the same trajectory initialised
+              and propagated alone.  The Tully runs use mixed initial states in every second case.
  tully    (e) TullyFSSH, batched, three model potentials: exact conservation across every _after_electronic_update,
               applied force = -dE_active/dx (finite difference of the model's own energy), total-energy drift against
               the velocity-Verlet shadow-Hamiltonian bound, norm.
@@ -62,7 +67,7 @@ ASSUMPTIONS = [
     "10 (1 + accepted hops) dt^2 max_t ( |v^2 V''|/12 + F^2/(12 m K) )  (V'' and F from finite differences of the "
     "model's own energy)",
 ]
-REQUIRED_MONITORS = ["propagate_returns_seen", "r3_comparisons", "ladder_levels", "g_frames_read", "hop_draws",
+REQUIRED_MONITORS = ["init_rows_with_state_differing_from_row0", "propagate_returns_seen", "r3_comparisons", "ladder_levels", "g_frames_read", "hop_draws",
                      "rescale_accepted", "rescale_rejected", "rescale_tie_trials", "after_hops_accepted",
                      "after_hops_frustrated", "after_trivial_relabels", "after_isolation_rows_compared",
                      "afterseq_sequences_with_two_applied_events", "afterseq_isolation_rows_compared",
@@ -112,7 +117,14 @@ def gen_cases(tier, seed):
         for model in ("single_crossing", "double_crossing", "extended_coupling"):
             cases.append({"kind": "tully", "model": model, "B": int(g.integers(4, 9)),
                           "dt": float(g.choice([0.01, 0.02, 0.05])), "seed": s(),
-                          "mass": float(g.choice([1.097, 1.097, 2.0])), "vmax": float(g.choice([0.25, 0.4]))})
+                          "mass": float(g.choice([1.097, 1.097, 2.0])), "vmax": float(g.choice([0.25, 0.4])),
+                          "mixed_init": bool(k % 2 == 1)})
+    # initial amplitudes through the regular path (_ensure_active_states / _init_coeffs), per-row initial states
+    n_i = 40 if q else 600
+    for k in range(n_i):
+        cases.append({"kind": "init", "ns": int(g.integers(2, 9)), "B": int(g.integers(2, 7)),
+                      "form": ["tensor-mixed", "tensor-mixed", "tensor-mixed", "int", "tensor-equal"][k % 5],
+                      "dt": float(g.uniform(0.05, 0.4)), "sub": [None, 8, 16][k % 3], "seed": s()})
     # (b) hop statistics
     n_h = 8 if q else 80
     for k in range(n_h):
@@ -1608,6 +1620,111 @@ def _has_long_cycle(p):
 
 
 # =======================================================================================================
+# initial amplitudes through the regular path
+# =======================================================================================================
+def _judge_initial(acc, dyn, init_act, where):
+    """step 0: every row has |c_k|^2 = 1 on ITS OWN initial state and 0 elsewhere, the active index is that state"""
+    amp = dyn._amp_phase.detach().numpy()
+    act = dyn._active_states.numpy()
+    B, ns = amp.shape[:2]
+    want = np.zeros_like(amp)
+    want[np.arange(B), np.asarray(init_act), 0] = 1.0
+    acc.count("init_rows_checked", B)
+    acc.count("init_rows_with_state_differing_from_row0", int((np.asarray(init_act) != init_act[0]).sum()))
+    if not np.array_equal(act, np.asarray(init_act)):
+        acc.violate("initial-active-state-is-the-requested-one", None, where=where, requested=np.asarray(init_act).tolist(),
+                    active=act.tolist())
+    if not (np.isfinite(amp).all() and np.array_equal(amp, want)):
+        pop = amp[..., 0] ** 2 + amp[..., 1] ** 2
+        acc.violate("initial-population-one-on-own-state-zero-elsewhere", None, where=where,
+                    requested=np.asarray(init_act).tolist(), populations=pop.tolist(), total=pop.sum(axis=1).tolist())
+
+
+def _init_instance(B, ns, dt, sub, initial_state):
+    import torch
+    from types import SimpleNamespace
+
+    dyn = _mk(B, ns, dt, sub)
+    dyn._amp_phase = None
+    dyn._active_states = None
+    dyn.initial_state = initial_state
+    mol = SimpleNamespace(species=torch.ones((B, 1), dtype=torch.int64), coordinates=torch.zeros((B, 1, 3)))
+    dyn._init_coeffs(mol)  # real: _ensure_active_states -> _normalize_initial_state, then the amplitude seeding
+    return dyn
+
+
+def _run_init(case):
+    import torch
+    from vlib.ref import tdse
+
+    hbar, K, _ = _consts()
+    acc = _Acc()
+    g = np.random.default_rng(case["seed"])
+    ns, B, dt, sub = case["ns"], case["B"], case["dt"], case["sub"]
+    form = case["form"]
+    if form == "int":
+        init_act = np.full(B, int(g.integers(0, ns)))
+        spec = int(init_act[0]) + 1
+    elif form == "tensor-equal":
+        init_act = np.full(B, int(g.integers(0, ns)))
+        spec = torch.tensor(init_act + 1, dtype=torch.long)
+    else:
+        init_act = g.integers(0, ns, B)
+        if len(set(init_act.tolist())) == 1:
+            init_act[-1] = (init_act[0] + 1) % ns
+        spec = torch.tensor(init_act + 1, dtype=torch.long)
+    acc.cells.add("init/%s/ns%d" % (form, ns))
+    dyn = _init_instance(B, ns, dt, sub, spec)
+    _judge_initial(acc, dyn, init_act, "lightweight")
+    # one real propagation step from that start: norm, R3, and every row against the same trajectory initialised alone
+    E0 = np.stack([_energies(g, ns, float(10 ** g.uniform(-2, 0))) for _ in range(B)])
+    E1 = E0 + g.normal(0, 0.02, (B, ns))
+    sc = min(0.9 / dt, float(10 ** g.uniform(-2, 0.3)))
+    D0 = np.stack([np.clip(_antisym(g, ns, sc), -0.9 / dt, 0.9 / dt) for _ in range(B)])
+    D1 = np.clip(D0 + np.stack([_antisym(g, ns, 0.2 * sc) for _ in range(B)]), -0.9 / dt, 0.9 / dt)
+
+    def step(d, rows):
+        co = {"energies": _T(E0[rows]), "nac_dot": _T(D0[rows])}
+        cn = {"energies": _T(E1[rows]), "nac_dot": _T(D1[rows])}
+        _MON["nsub"].clear()
+        d._propagate_electronic(co, cn, substeps=sub)
+        return _MON["nsub"][-1] if _MON["nsub"] else None
+
+    nsub = step(dyn, list(range(B)))
+    if nsub is None:
+        return acc.result(False, inconclusive="frame local 'nsub' not readable")
+    acc.count("propagate_returns_seen")
+    u = dyn._coeffs_complex().numpy()
+    pop = dyn.populations.numpy()
+    _check_g(acc, dyn, ncalls=1, label="init")
+    for b in range(B):
+        ph = _phis(E0[b], E1[b], D0[b], D1[b], dt, int(nsub), hbar)
+        u0 = np.zeros(ns, complex)
+        u0[init_act[b]] = 1.0
+        ref = tdse.propagate(u0, E0[b], E1[b], D0[b], D1[b], dt, 64 * int(nsub), hbar=hbar)
+        acc.count("r3_comparisons")
+        if _phase(ph) <= PHI_MAX_ABS:
+            bd = _amp_bound(int(nsub), ph)
+            if acc.margin("amp_vs_R3", float(np.linalg.norm(u[b] - ref)), bd + FLOOR_A):
+                acc.violate("amplitude-vs-R3", None, row=b, where="after regular initialisation", requested=init_act.tolist(),
+                            err=float(np.linalg.norm(u[b] - ref)))
+            if acc.margin("norm_rk4_bound", abs(float(pop[b].sum()) - 1.0), 2.2 * bd + FLOOR_N):
+                acc.violate("norm-rk4-bound", None, row=b, where="after regular initialisation", requested=init_act.tolist(),
+                            total_population=float(pop[b].sum()))
+        one = _init_instance(1, ns, dt, sub, torch.tensor([int(init_act[b]) + 1], dtype=torch.long) if form != "int" else int(init_act[b]) + 1)
+        n1 = step(one, [b])
+        acc.count("solo_rows_compared")
+        if n1 == nsub:
+            d = float(np.abs(one._amp_phase.numpy()[0] - dyn._amp_phase.numpy()[b]).max())
+            if acc.margin("solo_vs_batch_float_state", d, 1e-12):
+                acc.violate("trajectory-in-batch-equals-trajectory-alone", None, row=b, where="after regular initialisation",
+                            requested=init_act.tolist(), max_diff=d,
+                            population_in_batch=pop[b].tolist(), population_alone=one.populations.numpy()[0].tolist())
+    acc.obs.update({"requested": init_act.tolist(), "form": form, "nsub": int(nsub), "total_population": pop.sum(axis=1).tolist()})
+    return acc.result(True)
+
+
+# =======================================================================================================
 # (e) Tully models, live batched FSSH
 # =======================================================================================================
 def _run_tully(case):
@@ -1631,8 +1748,16 @@ def _run_tully(case):
     torch.manual_seed(case["seed"] % (2 ** 31))
     dyn = TullyFSSH(model, timestep=dt)
     mol = TullyMolecule(x0=x0, v0=v0, mass=mass)
+    init_act = np.zeros(B, dtype=np.int64)
+    if case.get("mixed_init"):
+        # per-trajectory initial states (1-indexed tensor), not all equal
+        init_act = g.integers(0, 2, B)
+        init_act[0], init_act[-1] = 0, 1
+        dyn.initial_state = torch.tensor(init_act + 1, dtype=torch.long)
+        acc.cells.add("tully/mixed-initial-states")
     dyn._setup_states(mol)
     dyn._init_coeffs(mol)
+    _judge_initial(acc, dyn, init_act, "tully")
     hfd = 1e-4
 
     def surfaces(x):
@@ -1710,7 +1835,7 @@ def _run_tully(case):
 
     dyn._after_electronic_update = after
     dyn._do_integrator_step = step_fn
-    E_init = surfaces(x0)[0][rows, 0] + 0.5 * K * mass * v0 ** 2
+    E_init = surfaces(x0)[0][rows, init_act] + 0.5 * K * mass * v0 ** 2
     _MON["g"].clear()
     with contextlib.redirect_stdout(io.StringIO()):
         dyn.run(mol, steps=steps, reuse_P=True, remove_com=None)
@@ -1797,6 +1922,8 @@ def run_case(case):
         return _run_afterseq(case)
     if kind == "hold1":
         return _run_hold1(case)
+    if kind == "init":
+        return _run_init(case)
     if kind == "tully":
         return _run_tully(case)
     if kind == "selftest":
